@@ -161,7 +161,7 @@ fn gen_c15(seed: u64, idx: usize, _tier: Tier) -> C15Scenario {
                     }
                 }
             }
-            Behav { command: c.command.clone(), target: c.target.clone(), outs, code: 0, exit_pause_ms: 0, early_exit: false, hold_pipes_ms: 0 }
+            Behav { command: c.command.clone(), target: c.target.clone(), outs, code: 0, exit_pause_ms: 0, early_exit: false, hold_pipes_ms: 0, outs_again: vec![] }
         })
         .collect();
     if rng.chance(1, 4) && !behav.is_empty() {
@@ -553,7 +553,7 @@ fn gen_c20(seed: u64, idx: usize, tier: Tier) -> C20Scenario {
                 OutStep { fd, hex: hex(s.as_bytes()), pause_ms: 0, close: false }
             })
             .collect();
-        script.behav.push(Behav { command: cf.command.clone(), target: cf.target.clone(), outs, code: 0, exit_pause_ms: 0, early_exit: false, hold_pipes_ms: 0 });
+        script.behav.push(Behav { command: cf.command.clone(), target: cf.target.clone(), outs, code: 0, exit_pause_ms: 0, early_exit: false, hold_pipes_ms: 0, outs_again: vec![] });
     }
     // one scenario in twenty: one task prints a single newline-terminated line of 2.2-3.2 MiB
     if !heavy_stall && rng.chance(1, 20) {
@@ -618,7 +618,7 @@ fn gen_c20(seed: u64, idx: usize, tier: Tier) -> C20Scenario {
                     OutStep { fd, hex: hex(format!("{}@{} fd{} second-run line {}\n", cf.command, cf.target, fd, j).as_bytes()), pause_ms: 0, close: false }
                 })
                 .collect();
-            s2.behav.push(Behav { command: cf.command.clone(), target: cf.target.clone(), outs, code: 0, exit_pause_ms: 0, early_exit: false, hold_pipes_ms: 0 });
+            s2.behav.push(Behav { command: cf.command.clone(), target: cf.target.clone(), outs, code: 0, exit_pause_ms: 0, early_exit: false, hold_pipes_ms: 0, outs_again: vec![] });
         }
         s2.strategy = Strategy::Uniform;
         s2.sched_seed = rng.next_u64();
